@@ -175,7 +175,8 @@ func snapshot(vfs avfs.VFS, root string, o SnapOpts) *Snap {
 				prev = name
 
 				child := path + sep + name
-				if strings.HasSuffix(path, sep) {
+				if path != "" && vfs.IsPathSeparator(path[len(path)-1]) {
+					// (a Windows-typed instance knows two separators: "/" + name, not "/" + "\\" + name)
 					child = path + name
 				}
 
@@ -206,7 +207,7 @@ func snapshot(vfs avfs.VFS, root string, o SnapOpts) *Snap {
 
 		for _, name := range tops {
 			p := root + name
-			if !strings.HasSuffix(root, sep) {
+			if root == "" || !vfs.IsPathSeparator(root[len(root)-1]) {
 				p = root + sep + name
 			}
 
